@@ -121,6 +121,26 @@ func (wk *worker) runOnce(h *Hist) Outcome {
 		if o.Result == "hung" {
 			out.Suspicious = true
 		}
+		// Disturbances that leave no trace in the duration or in the scheduling probe:
+		// (1) a sync failed although nothing the harness injected explains a failure (a
+		//     connection that could not be made, a request lost before it reached the fault
+		//     layer ..): run again; a defect of the code is deterministic and stays, a
+		//     disturbance goes away
+		if opFailed(eff[oi], o) && !explained(h, eff[oi], o) {
+			out.Suspicious = true
+			if out.Why == "" {
+				out.Why = fmt.Sprintf("sync %d failed and no injected fault explains it: %s", oi, firstLine(o.Err, o.Events))
+			}
+		}
+		// (2) the error text names the environment, not the publisher
+		if envError(o.Err) || envErrorEv(o.Events) {
+			out.Unstable, out.Why = true, "the operating system refused a connection: "+firstLine(o.Err, o.Events)
+		}
+		// (3) the same resource was fetched twice successfully in one sync: something below
+		//     the code under test sent a request again
+		if dupAnswered(o) {
+			out.Unstable, out.Why = true, fmt.Sprintf("sync %d: a resource was answered twice", oi)
+		}
 		// No notification for an announcement of a head that is not synced: either a
 		// defect or a notification that came too late; run again to tell them apart.
 		if o.Result == "noevent" && o.Latest0 != eff[oi].Head && !annOK[eff[oi].Head] {
@@ -140,7 +160,7 @@ func (wk *worker) runOnce(h *Hist) Outcome {
 // ProbeLimitMs: a history during which the worker process was kept from running for longer
 // than this (sleep overshoot) is not trusted: the 200 ms client timeout and the "nothing
 // happened" looks are wall-clock decisions.
-const ProbeLimitMs = 40
+const ProbeLimitMs = 25
 
 // run repeats a history whose timing was suspicious, each time with longer waits.
 func (wk *worker) run(j *job) Outcome {
@@ -747,4 +767,69 @@ func sumMillis(o Outcome) int {
 		n += x.Millis
 	}
 	return n
+}
+
+// explained: did the harness inject anything into this sync that can make it fail
+func explained(h *Hist, op fd.Op, o fd.Obs) bool {
+	if op.HookFail >= 0 || op.DiscFail || op.HookCancelAt > 0 || op.PreCancel || h.Cfg.FilterIPs {
+		return true
+	}
+	for _, e := range o.Log {
+		if e.F != "ok" {
+			return true // a faulted request, a dead address, an okcancel
+		}
+	}
+	for _, f := range op.Faults {
+		if f.K == "okcancel" || f.K == "cancel" {
+			return true
+		}
+	}
+	return false
+}
+
+func firstLine(err string, evs []fd.Ev) string {
+	for _, e := range evs {
+		if e.Err && err == "" {
+			err = e.Msg
+		}
+	}
+	if len(err) > 200 {
+		err = err[len(err)-200:]
+	}
+	return err
+}
+
+var envMarks = []string{"dial tcp", "cannot assign requested address", "connection refused", "too many open files", "no route to host", "network is unreachable", "no buffer space"}
+
+func envError(s string) bool {
+	for _, m := range envMarks {
+		if strings.Contains(s, m) {
+			return true
+		}
+	}
+	return false
+}
+
+func envErrorEv(evs []fd.Ev) bool {
+	for _, e := range evs {
+		if e.Err && envError(e.Msg) {
+			return true
+		}
+	}
+	return false
+}
+
+func dupAnswered(o fd.Obs) bool {
+	seen := map[string]bool{}
+	for _, e := range o.Log {
+		if e.F != "ok" && e.F != "okcancel" {
+			continue
+		}
+		k := fmt.Sprintf("%d/%v/%d", e.Addr, e.NoPath, e.Rsrc)
+		if seen[k] {
+			return true
+		}
+		seen[k] = true
+	}
+	return false
 }
